@@ -52,7 +52,7 @@ where go : List String → DState × String
           else if d.hashes.any (fun e => e.2 = hash ∧ e.1 ≠ der) then (d, "hash-collision")
           else
             let d := { d with hashes := (der, hash) :: d.hashes }
-            match buildIndirect (fun _ => hash) pre cert chain, buildDirect pre cert chain with
+            match buildIndirectC Gen.indirectBuildChecksEncoding (fun _ => hash) pre cert chain, buildDirect pre cert chain with
             | some ix, some dx => (d, hexOrDash ix ++ " " ++ hexOrDash dx)
             | _, _ => (d, "encode-error")
         | _, _ => (d, "bad-op")
